@@ -392,6 +392,16 @@ def step (st : St) (line : String) : St × String :=
             toString c.numBp ++ " " ++ toString c.stringBytesDeclared
         | .error e => rErr e)
     | none => bad
+  | ["BUFA", a, h] =>
+    match a.toNat?, unhex h with
+    | some a, some bs =>
+      let r := Cache.parseAt a bs
+      ({ st with buf := r },
+        match r with
+        | .ok c => "ok " ++ toString c.numClasses ++ " " ++ toString c.numMembers ++ " " ++
+            toString c.numBp ++ " " ++ toString c.stringBytesDeclared
+        | .error e => rErr e)
+    | _, _ => bad
   | ["BCLS", c] =>
     match unhex c with
     | some c => (st, onBuf st (fun k => optS hx (k.remapClass c)))
